@@ -11,6 +11,11 @@
      op_wf op             the alignment named by the request is a power of two (align_of always is) *)
 From VM Require Import Prelude.MachInt Prelude.Outcome Impl.Volatile Spec.C01 Suite.C01 Proofs.C01.
 
+(* the implementation model satisfies the executable spec checker on every well-formed case:
+   any root, any number of requests of any kind with any arguments, both build profiles *)
+Theorem C01_model_ok : forall c, wf_case c -> ok_C01 c (run_C01 c) = true.
+Proof. exact C01_model_ok_lemma. Qed.
+
 (* whatever is requested, in both build profiles: an accessor that is handed out lies inside its
    parent (and is again a valid range, so the statement chains) *)
 Theorem C01_derive_contained : forall m p op c, acc_valid p -> op_wf op ->
@@ -48,6 +53,13 @@ Theorem C01_chain_aligned : forall ops m root c, acc_valid root -> Forall op_wf 
   match c with ATyped t | AAtomic t => tr_addr t mod tr_align t = 0 | _ => True end.
 Proof. exact chain_aligned_lemma. Qed.
 
+(* on the way to an accessor of a parent no longer than isize::MAX the pointer arithmetic
+   (ptr::add / ptr::offset) stays within its language-defined domain: no overflow, offset <= isize::MAX *)
+Theorem C01_ptr_arith_defined : forall m p op c, acc_valid p -> op_wf op -> acc_len p <= ISZ_MAX ->
+  derive m p op = Val (Ok c) -> ptr_add_defined (acc_base p) (acc_base c - acc_base p) /\
+  acc_base c = acc_base p + (acc_base c - acc_base p).
+Proof. exact ptr_arith_defined_lemma. Qed.
+
 (* GuestMemory::get_slice / get_host_address, given what find_region returned: an accessor only
    inside that region, at the offset of the guest address; no region, no accessor *)
 Theorem C01_guest_get_slice : forall m fr addr count s,
@@ -72,6 +84,23 @@ Proof. exact gm_unmapped_lemma. Qed.
 
 (* non-vacuity: a 9-byte parent ending 2 bytes below 2^64; a fitting chain, a request whose
    pointer sum overflows, a misaligned and an aligned atomic request *)
+Example C01_model_ok_nonvacuous :
+  let c := {| c_mode := Debug; c_rootk := RK_GMEM; c_base := 0; c_len := 0;
+              c_regions := [(4096, 8192); (16384, 9)];
+              c_ops := [ {| s_rq := QGmGetSlice; s_ty := 0; s_a := 16385; s_b := 8 |};
+                         {| s_rq := QGetArrayRef; s_ty := 1; s_a := 1; s_b := 3 |};
+                         {| s_rq := QRefAt; s_ty := 0; s_a := 3; s_b := 0 |};
+                         {| s_rq := QRefAt; s_ty := 0; s_a := 2; s_b := 0 |} ] |} in
+  wf_case c /\
+  map o_class (run_C01 c) = [0; 0; 5; 0] /\ map o_off (run_C01 c) = [1; 2; 0; 6] /\ map o_ridx (run_C01 c) = [1; 1; 0; 1].
+Proof.
+  cbv zeta. split.
+  - split; [vm_compute; discriminate|]. cbn. split; [discriminate|]. split.
+    + repeat constructor.
+    + vm_compute. discriminate.
+  - vm_compute. repeat split.
+Qed.
+
 Example C01_nonvacuous :
   let root := ASlice (VS (W64 - 11) 9) in
   let u32 := {| e_size := 4; e_align := 4 |} in
@@ -85,12 +114,14 @@ Proof.
   split; [repeat constructor|]. rewrite W64_val. vm_compute. repeat split.
 Qed.
 
+Print Assumptions C01_model_ok.
 Print Assumptions C01_derive_contained.
 Print Assumptions C01_derive_aligned.
 Print Assumptions C01_derive_exact.
 Print Assumptions C01_derive_child.
 Print Assumptions C01_chain_contained.
 Print Assumptions C01_chain_aligned.
+Print Assumptions C01_ptr_arith_defined.
 Print Assumptions C01_guest_get_slice.
 Print Assumptions C01_guest_get_host_address.
 Print Assumptions C01_guest_unmapped.
